@@ -389,6 +389,7 @@ class FuncInfo:
     params: List[Param] = field(default_factory=list)
     decorators: List[ast.AST] = field(default_factory=list)
     static_argnums: Optional[Tuple[int, ...]] = None  # positions incl. self
+    static_unknown: bool = False  # jit with a static specification that is not a literal / module constant
     is_jit: bool = False
     is_abstract: bool = False
     is_classmethod: bool = False
@@ -540,6 +541,7 @@ class Program:
         self.functions: Dict[str, FuncInfo] = {}
         self._subclasses: Dict[str, Set[str]] = {}
         self._load()
+        self._resolve_jit_decorators()
         self._positionalise_calls()
         self._collapse_forwarders()
         self._expand_wrapping_decorators()
@@ -597,6 +599,72 @@ class Program:
                     moved = True
                 if moved:
                     n.keywords = [k for k in n.keywords if k.arg in kwd]
+
+    # ------------------------------------------------------ jit decorators written indirectly
+    def _resolve_jit_decorators(self):
+        """`static_argnames=(...)` (names -> positions), static specifications held in a module-level constant, and a
+        module-level alias of the decorator itself (`_jit_method = partial(jit, static_argnames=("self",))`, used as
+        `@_jit_method`) mean the same as the literal `@partial(jit, static_argnums=...)`."""
+        def const_value(mod: ModuleInfo, node: ast.AST) -> ast.AST:
+            seen = 0
+            while isinstance(node, ast.Name) and seen < 4:
+                nxt = mod.constants.get(node.id) or mod.rebinds.get(node.id)
+                if nxt is None:
+                    break
+                node, seen = nxt, seen + 1
+            return node
+
+        def str_tuple(node: ast.AST) -> Optional[Tuple[str, ...]]:
+            if isinstance(node, ast.Constant) and isinstance(node.value, str):
+                return (node.value,)
+            if isinstance(node, (ast.Tuple, ast.List)) and all(isinstance(e, ast.Constant) and isinstance(e.value, str)
+                                                               for e in node.elts):
+                return tuple(e.value for e in node.elts)
+            return None
+        for mod in self.modules.values():
+            fis = list(mod.functions.values()) + [m for c in self.classes.values() if c.module == mod.name
+                                                  for m in c.methods.values()]
+            for fi in fis:
+                if isinstance(fi.node, ast.Lambda):
+                    continue
+                for d in fi.node.decorator_list:
+                    d0 = d
+                    if isinstance(d, ast.Name):
+                        d = const_value(mod, d)
+                    if not (isinstance(d, ast.Call) and dotted(d.func) in ("partial", "functools.partial") and d.args
+                            and dotted(d.args[0]) in ("jit", "jax.jit")) and not (
+                            isinstance(d, ast.Call) and dotted(d.func) in ("jit", "jax.jit")):
+                        if d0 is not d and dotted(d) in ("jit", "jax.jit"):
+                            fi.is_jit = True
+                            fi.static_argnums = fi.static_argnums or ()
+                        continue
+                    nums: List[int] = []
+                    unknown = False
+                    for kw in d.keywords:
+                        if kw.arg == "static_argnums":
+                            t = int_tuple(const_value(mod, kw.value))
+                            if t is None:
+                                unknown = True
+                            else:
+                                nums.extend(t)
+                        elif kw.arg == "static_argnames":
+                            t2 = str_tuple(const_value(mod, kw.value))
+                            if t2 is None:
+                                unknown = True
+                            else:
+                                names = [q.name for q in fi.params if q.kind == "pos"]
+                                for nm in t2:
+                                    if nm in names:
+                                        nums.append(names.index(nm))
+                                    elif not any(q.name == nm for q in fi.params):
+                                        nums.append(10 ** 6)       # names no parameter: reported as out of range by BIND-2
+                    fi.is_jit = True
+                    if unknown:
+                        # the specification is computed at import time: not modelled, nothing is claimed about it
+                        fi.static_argnums = None
+                        fi.static_unknown = True
+                    else:
+                        fi.static_argnums = tuple(sorted(set(nums)))
 
     # ------------------------------------------------------ wrapping decorators
     def _expand_wrapping_decorators(self):
@@ -743,7 +811,11 @@ class Program:
             if not all(isinstance(a, ast.Name) for a in c.args) or [a.id for a in c.args] != passed:
                 return None
             cp = [p_.name for p_ in callee.params if p_.kind == "pos"]
-            if len(cp) != len(callee.params) or len(cp) != len(own) or callee.is_abstract or isinstance(callee.node, ast.Lambda):
+            # the callee may take more than the stub passes, as long as every further parameter has a default (keyword-only
+            # tuning constants, optional buffers): those are bound to their defaults
+            extra = [p_ for p_ in callee.params if not (p_.kind == "pos" and p_.name in cp[:len(own)])]
+            if any(p_.kind not in ("pos", "kwonly") or not p_.has_default or p_.default is None for p_ in extra) or \
+                    len(cp) < len(own) or callee.is_abstract or isinstance(callee.node, ast.Lambda):
                 return None
             if callee.decorators:
                 return None
@@ -758,8 +830,17 @@ class Program:
                 if callee is None:
                     continue
                 own = [p_.name for p_ in fi.params]
-                cp = [p_.name for p_ in callee.params]
+                cp = [p_.name for p_ in callee.params if p_.kind == "pos"][:len(own)]
                 new_body = copy.deepcopy(callee.real_body())
+                extra = [p_ for p_ in callee.params if not (p_.kind == "pos" and p_.name in cp)]
+                if extra:
+                    binds = []
+                    for p_ in extra:
+                        a_ = ast.Assign(targets=[ast.Name(id=p_.name, ctx=ast.Store())], value=copy.deepcopy(p_.default))
+                        ast.copy_location(a_, callee.node)
+                        ast.fix_missing_locations(a_)
+                        binds.append(a_)
+                    new_body = binds + new_body
                 ren = {a: b for a, b in zip(cp, own) if a != b}
                 if ren:
                     # parameter names differ: rename (only when the new names do not clash with the callee's locals)
@@ -863,6 +944,19 @@ class Program:
                 t = node.targets[0]
                 if isinstance(t, ast.Name):
                     mod.rebinds[t.id] = node.value
+                elif isinstance(t, (ast.Tuple, ast.List)) and isinstance(node.value, (ast.Tuple, ast.List)) and \
+                        len(t.elts) == len(node.value.elts) and all(isinstance(e_, ast.Name) for e_ in t.elts) and \
+                        not any(isinstance(e_, ast.Starred) for e_ in node.value.elts):
+                    for e_, v_ in zip(t.elts, node.value.elts):          # UP, DN = 0, 1
+                        mod.rebinds[e_.id] = v_
+            elif isinstance(node, ast.Assign) and len(node.targets) > 1:
+                for t_ in node.targets:                                     # A = B = <value>;  S = (U, D) = (0, 1)
+                    if isinstance(t_, ast.Name):
+                        mod.rebinds[t_.id] = node.value
+                    elif isinstance(t_, (ast.Tuple, ast.List)) and isinstance(node.value, (ast.Tuple, ast.List)) and \
+                            len(t_.elts) == len(node.value.elts) and all(isinstance(e_, ast.Name) for e_ in t_.elts):
+                        for e_, v_ in zip(t_.elts, node.value.elts):
+                            mod.rebinds[e_.id] = v_
             elif isinstance(node, ast.AnnAssign) and isinstance(node.target, ast.Name) and node.value is not None:
                 mod.rebinds[node.target.id] = node.value
         # module-level constants: a name bound once, at top level, to a literal (numbers, strings, tuples / dicts of
@@ -909,6 +1003,31 @@ class Program:
                 continue
             if isinstance(lit, (int, float, complex, str, bytes, tuple, frozenset)) or (isinstance(lit, dict) and lit):
                 mod.constants[nm_] = val_
+        # a tuple / list display of literals and of names that are constants themselves (SPINS = (UP, DN)) is a constant:
+        # the names are replaced by their values
+        import copy as _copy
+        for _ in range(3):
+            grown = False
+            for nm_, val_ in mod.rebinds.items():
+                if nm_ in mod.constants or counts.get(nm_, 0) != 1 or not isinstance(val_, (ast.Tuple, ast.List)):
+                    continue
+                names_ = [x_ for x_ in ast.walk(val_) if isinstance(x_, ast.Name)]
+                if not names_ or not all(x_.id in mod.constants and x_.id != nm_ for x_ in names_):
+                    continue
+
+                class _Sub(ast.NodeTransformer):
+                    def visit_Name(self, n_):
+                        return ast.copy_location(_copy.deepcopy(mod.constants[n_.id]), n_)
+                new_ = _Sub().visit(_copy.deepcopy(val_))
+                try:
+                    ast.literal_eval(new_)
+                except Exception:
+                    continue
+                ast.fix_missing_locations(new_)
+                mod.constants[nm_] = new_
+                grown = True
+            if not grown:
+                break
         # defjvp registrations: @f.defjvp def g(...)
         for fi in list(mod.functions.values()):
             for d in fi.decorators:
@@ -974,11 +1093,8 @@ class Program:
                         for kw in d.keywords:
                             if kw.arg == "static_argnums":
                                 t = int_tuple(kw.value)
-                                if t is None:
-                                    raise AnalysisError(
-                                        f"{mod.path}:{node.lineno} static_argnums is not a literal"
-                                    )
-                                fi.static_argnums = t
+                                if t is not None:
+                                    fi.static_argnums = t      # a non-literal is resolved in _resolve_jit_decorators
             elif isinstance(d, ast.Attribute) and d.attr == "register":
                 base = dotted(d.value)
                 fi.dispatch_of = base
